@@ -363,8 +363,158 @@ def lit_value(n):
     return None
 
 
+BOP_SIG = "core::ops::function::Fn(&'a [corgi::array::Array], &'b [bool], &'c corgi::array::Array)"
+
+
+def canonicalise(data):
+    """Rename-robustness: private fields of `Array` and private engine/builder functions are
+    identified by *role* (type, signature, which public accessor reads them) and renamed, in
+    the fact set, to the canonical names the rules use.  Public names are never touched (a
+    public rename is an API change).  Returns {old: new} for the report."""
+    arr = None
+    for a in data["adts"]:
+        if a["def"] == "corgi::array::Array":
+            arr = a
+    if arr is None:
+        return {}
+    fields = [f for v in arr["variants"] for f in v["fields"]]
+    names = {f["name"] for f in fields}
+    fl = data.get("float", "f64")
+    by_def = {b["def"]: b for b in data["bodies"]}
+
+    def array_fields_touched(b):
+        out = set()
+        mir = b.get("mir") or {}
+        for p in mir.get("field_places", []):
+            for e in p["proj"]:
+                if isinstance(e, dict) and e.get("adt") == "corgi::array::Array":
+                    out.add(e["field"])
+        return out
+
+    def pub_method(name):
+        for b in data["bodies"]:
+            if b.get("impl_self") == "corgi::array::Array" and b.get("impl_trait_def") is None and b.get("name") == name and b.get("reachable"):
+                return b
+        return None
+    fmap = {}
+
+    def unique_by_type(pred, canon):
+        c = [f["name"] for f in fields if pred(f["ty"])]
+        if len(c) == 1:
+            fmap[c[0]] = canon
+    unique_by_type(lambda t: t == "alloc::rc::Rc<alloc::vec::Vec<corgi::array::Array>>", "children")
+    unique_by_type(lambda t: t.startswith("core::option::Option<alloc::rc::Rc<") and BOP_SIG in t, "backward_op")
+    unique_by_type(lambda t: t == "alloc::rc::Rc<core::cell::Cell<usize>>", "consumer_count")
+    unique_by_type(lambda t: t == "alloc::rc::Rc<core::cell::Cell<core::option::Option<corgi::array::Array>>>", "delta")
+    unique_by_type(lambda t: t == "alloc::rc::Rc<core::cell::RefCell<core::option::Option<corgi::array::Array>>>", "gradient")
+    for acc, canon in (("dimensions", "dimensions"), ("values", "values")):
+        b = pub_method(acc)
+        if b is not None:
+            t = array_fields_touched(b)
+            if len(t) == 1:
+                fmap[next(iter(t))] = canon
+    flags = [f["name"] for f in fields if f["ty"] == "core::cell::Cell<bool>"]
+    st = pub_method("start_tracking")
+    if st is not None and len(flags) == 2:
+        t = array_fields_touched(st) & set(flags)
+        if len(t) == 1:
+            tf = next(iter(t))
+            fmap[tf] = "is_tracked"
+            fmap[[x for x in flags if x != tf][0]] = "keep_gradient"
+    fmap = {o: n for o, n in fmap.items() if o != n}
+    # refuse on collisions (a different field already carries the canonical name)
+    for o, n in list(fmap.items()):
+        if n in names and n not in fmap:
+            fmap = {}
+            break
+
+    # private functions by signature
+    dmap = {}
+    A = "corgi::array::Array"
+
+    def priv(b):
+        return b["kind"] in ("Fn", "AssocFn") and not b.get("reachable") and not b.get("impl_trait_def")
+
+    def unique_fn(pred, canon):
+        c = [b for b in data["bodies"] if priv(b) and pred(b)]
+        if len(c) == 1 and c[0]["def"] != A + "::" + canon:
+            dmap[c[0]["def"]] = A + "::" + canon
+    counter_field = next((o for o, n in fmap.items() if n == "consumer_count"), "consumer_count")
+    unique_fn(lambda b: b.get("impl_self") == A and b.get("inputs") == ["&" + A] and b.get("output") == "()"
+              and counter_field in array_fields_touched(b), "propagate_consumers")
+    unique_fn(lambda b: b.get("impl_self") == A and b.get("inputs") == [A, "&[usize]"] and b.get("output") == A, "flatten_to")
+    unique_fn(lambda b: b.get("impl_self") == A and b.get("inputs") == [A, "alloc::vec::Vec<corgi::array::Array>"] and b.get("output") == A, "with_children")
+    unique_fn(lambda b: b.get("impl_self") == A and len(b.get("inputs") or []) == 2 and b["inputs"][0] == A and b["inputs"][1].startswith("alloc::rc::Rc<")
+              and BOP_SIG in b["inputs"][1] and b.get("output") == A, "with_backward_op")
+    unique_fn(lambda b: any(i.startswith("core::option::Option<alloc::rc::Rc<") and BOP_SIG in i for i in (b.get("inputs") or []))
+              and "alloc::vec::Vec<&corgi::array::Array>" in (b.get("inputs") or []) and b.get("output") == A, "sliced_op")
+    # never map onto a def that already exists
+    dmap = {o: n for o, n in dmap.items() if n not in by_def}
+    if not fmap and not dmap:
+        return {}
+
+    olds = sorted(dmap, key=len, reverse=True)
+
+    def fix_def(sv):
+        for o in olds:
+            if sv == o:
+                return dmap[o]
+            if sv.startswith(o + "::"):
+                return dmap[o] + sv[len(o):]
+        return sv
+    DEF_KEYS = ("def", "parent", "root", "path", "resolved", "closure")
+
+    def rec(x, parent_adt=None):
+        if isinstance(x, dict):
+            if dmap:
+                for k in DEF_KEYS:
+                    v = x.get(k)
+                    if isinstance(v, str) and "::" in v:
+                        x[k] = fix_def(v)
+                if x.get("name") and isinstance(x.get("def"), str) and x.get("kind") in ("Fn", "AssocFn"):
+                    x["name"] = x["def"].rsplit("::", 1)[-1]
+            if fmap:
+                if x.get("k") == "Field" and x.get("adt") == A and x.get("name") in fmap:
+                    x["name"] = fmap[x["name"]]
+                if "field" in x and x.get("adt") == A and x.get("field") in fmap:
+                    x["field"] = fmap[x["field"]]
+                if x.get("k") == "Adt" and x.get("adt") == A:
+                    for f in x.get("fields", []):
+                        if f.get("name") in fmap:
+                            f["name"] = fmap[f["name"]]
+                if x.get("k") in ("Leaf", "Variant") and x.get("adt") == A:
+                    for sp in x.get("subs", []):
+                        if sp.get("field") in fmap:
+                            sp["field"] = fmap[sp["field"]]
+            for v in x.values():
+                if isinstance(v, (dict, list)):
+                    rec(v)
+        elif isinstance(x, list):
+            for v in x:
+                if isinstance(v, (dict, list)):
+                    rec(v)
+    rec(data["bodies"])
+    rec(data["items"])
+    for f in fields:
+        if f["name"] in fmap:
+            f["orig_name"] = f["name"]
+            f["name"] = fmap[f["name"]]
+    # MIR aggregates carry field names too
+    for b in data["bodies"]:
+        for ag in (b.get("mir") or {}).get("aggregates", []):
+            if ag.get("adt") == A:
+                for f in ag.get("fields", []):
+                    if f.get("name") in fmap:
+                        f["name"] = fmap[f["name"]]
+    out = dict(fmap)
+    out.update(dmap)
+    return out
+
+
 class Facts:
     def __init__(self, data):
+        self.renamed = canonicalise(data) if "bodies" in data and "adts" in data and not data.get("_canonical") else {}
+        data["_canonical"] = True
         self.data = data
         self.config = data.get("_config")
         self.bodies = data["bodies"]
